@@ -43,11 +43,14 @@ Theorem C11_no_offer_of_acked : forall c h t m r,
 Proof. exact not_acked_elsewhere_all. Qed.
 Print Assumptions C11_no_offer_of_acked.
 
+(* [sub_ok c]: the subnets the handler holds are those of its configuration — by construction for a
+   handler built without a lease file (Example C11_sub_ok_example), by theorem
+   C12_stale_file_config for one built on any lease file. *)
 (* No OFFER/ACK names the host's own address, the router's, the network or broadcast
    address of the client's subnet (by its capture state at that moment), an address
    outside that subnet, or one the session then tracks for a different MAC. *)
 Theorem C11_reserved : forall c h t m r,
-  In t (trace c (init c) h) -> op_msg (t_op t) = Some m -> t_reply t = Some r ->
+  sub_ok c -> In t (trace c (init c) h) -> op_msg (t_op t) = Some m -> t_reply t = Some r ->
   c11_not_reserved c (t_pre t) m r = true.
 Proof. exact not_reserved_all. Qed.
 Print Assumptions C11_reserved.
@@ -56,7 +59,7 @@ Print Assumptions C11_reserved.
    evaluated on the model's trace) is empty along every history: an alarm "viol ..." of
    the extracted model is impossible, so every alarm of the run is a model/implementation
    disagreement. *)
-Theorem C11_spec_column_never_fails : forall c h t, In t (trace c (init c) h) -> c11_fails c t = [].
+Theorem C11_spec_column_never_fails : forall c h t, sub_ok c -> In t (trace c (init c) h) -> c11_fails c t = [].
 Proof. exact c11_fails_nil. Qed.
 Print Assumptions C11_spec_column_never_fails.
 
@@ -68,3 +71,7 @@ Example C11_live_example :
   = [(ROffer, 3232235522); (RAck, 3232235522); (RNak, 0); (ROffer, 3232235532); (RAck, 3232235532); (RAck, 3232235522)].
 Proof. exact live_example. Qed.
 Print Assumptions C11_live_example.
+
+Example C11_sub_ok_example : sub_ok wcfg.
+Proof. exact (sub_ok_wanted _). Qed.
+Print Assumptions C11_sub_ok_example.
